@@ -33,19 +33,23 @@ LAYOUTS = {
     "sel2":   (2, '{"on", "off"}', BOOL, "{TRUE}", "{TRUE}", False, False, ALL_OPS),
     "nosel1": (1, '{"none"}', BOOL, "{TRUE}", "{TRUE}", False, False, ALL_OPS),
     "nosel2": (2, '{"none"}', BOOL, "{TRUE}", "{TRUE}", False, False, ALL_OPS),
+    "sel2c":  (2, '{"on", "off"}', "{TRUE}", "{TRUE}", "{TRUE}", False, False, ALL_OPS),
+    "nosel2c": (2, '{"none"}', "{TRUE}", "{TRUE}", "{TRUE}", False, False, ALL_OPS),
     "fext1":  (1, '{"on", "off"}', "{TRUE}", BOOL, "{TRUE}", True, False, F_OPS),
     "verr1":  (1, '{"on", "off"}', "{TRUE}", "{TRUE}", BOOL, False, True, V_OPS),
     "fext1c": (1, '{"on", "off"}', BOOL, BOOL, "{TRUE}", True, False, F_OPS),
     "oddsel": (1, '{"on", "off", "na", "neg"}', "{TRUE}", "{TRUE}", "{TRUE}", False, False, ALL_OPS),
 }
 TIERS = {
-    "quick":    [("sel1", 3), ("sel2", 3), ("nosel1", 3), ("nosel2", 3), ("fext1", 3), ("verr1", 3), ("oddsel", 2)],
+    # quick: 2 variables with undefined coordinates up to 2 samples, with defined coordinates up to 3
+    "quick":    [("sel1", 3), ("sel2", 2), ("sel2c", 3), ("nosel1", 3), ("nosel2", 2), ("nosel2c", 3), ("fext1", 3),
+                 ("verr1", 3), ("oddsel", 2)],
     "thorough": [("sel1", 4), ("sel2", 4), ("nosel1", 4), ("nosel2", 4), ("fext1", 4), ("verr1", 4), ("fext1c", 3),
                  ("oddsel", 3)],
 }
 FEATS = ["sel_off", "coord_na", "zall_na", "hetero", "f_na", "v_na", "odd_sel", "none_usable", "clean"]
 Z1 = [2.5, -1.25, 4.75, 0.5]
-HANG_PROBE = 8          # predicted hangs actually executed per layout before the rest is taken as confirmed
+HANG_PROBE = 4          # predicted hangs actually executed per layout before the rest is taken as confirmed
 TOL_KRIG = 1e-9
 TOL_SUM = 1e-12
 
@@ -523,6 +527,9 @@ def run_targets(ck, aux, exe, workers, totals):
 
 def run(tier):
     ck = Check("C05", "model_checking", tier)
+    for fn in os.listdir(vlib.REPLAY):          # replay files of an earlier run of this tier
+        if fn.startswith("C05-%s-" % tier):
+            os.remove(os.path.join(vlib.REPLAY, fn))
     vlib.build_lib()
     exe = vlib.build_harness("mask_run")
     workers = max(2, min(8, vlib.NCPU // 2))
